@@ -184,9 +184,15 @@ func (g *gen) makeSubs() {
 			name = longNames[g.r.Intn(len(longNames))]
 		}
 		name = g.fresh(name) // also unique among root identifiers
-		dir := g.root.Dir + "/" + name
+		dirName := name
+		if i == 0 && g.pr(0.2) {
+			// an imported package carrying the NAME of the analysed package (another import path)
+			name = g.root.Name
+			g.p.Feature("sub-package-named-like-the-root-package")
+		}
+		dir := g.root.Dir + "/" + dirName
 		if prev != nil && g.pr(0.4) {
-			dir = prev.Dir + "/" + name // nested sub-package
+			dir = prev.Dir + "/" + dirName // nested sub-package
 			g.p.Feature("nested-sub-package")
 		}
 		sub := &Pkg{Name: name, Path: ModulePath + "/" + dir, Dir: dir}
